@@ -46,6 +46,7 @@ def plan(tier, seed):
         shards.append({"kind": "offset", "sub": sub, "nb": 12 if tier == "quick" else 40})
     for sub in range(4 if tier == "quick" else 32):
         shards.append({"kind": "range", "sub": sub, "n": 1500 if tier == "quick" else 8000})
+    shards.append({"kind": "repo-tests", "part": "calendar"})
     return shards
 
 
@@ -216,6 +217,10 @@ def worker(ctx, shard):
             if got is not None and len(got) >= 2:
                 nontriv += 1
         _flush(ctx, mon, "range", v0, nontriv)
+    if kind == "repo-tests":
+        from props import workload_r
+
+        workload_r.judge(ctx, shard["part"])
     for (u, op), n in mon.calls.items():
         ctx.event("%s.%s" % (u, op), n)
     ctx.event("direct_calls", mon.direct)
